@@ -6,11 +6,15 @@ import time
 from concurrent.futures import ProcessPoolExecutor
 
 
+Z3_CLI = '/usr/local/bin/z3-new'
+
 CONFIGS = {
     'z3': {},
     'z3-ematch': {'smt.mbqi': False, 'smt.auto_config': False},
     'z3-nombqi': {'smt.mbqi': False},
     'z3-seed7': {'smt.random_seed': 7, 'smt.mbqi': False, 'smt.auto_config': False},
+    # many nested if-expressions (index clamping, optional values): case splitting on the relevant ones first
+    'z3-cs3': {'smt.mbqi': False, 'smt.auto_config': False, 'smt.case_split': 3},
 }
 
 
@@ -18,17 +22,42 @@ def _z3_worker(args):
     """one obligation, one z3 configuration. `sat` is only accepted from the default configuration (the E-matching-only
     configurations cannot establish satisfiability of quantified formulas)"""
     name, smt2, timeout_ms, want_model, label = args
-    import z3
     t0 = time.time()
+    # every obligation is decided by a FRESH z3 process on the obligation's SMT-LIB text: the verdict depends on the text alone, not
+    # on what the same process solved (or generated) before -- reproducible with `z3-new <opts> file.smt2`
+    text = smt2 if '(check-sat)' in smt2 else smt2 + '\n(check-sat)\n'
+    opts = []
+    for k, v in CONFIGS[label].items():
+        opts.append(f'{k}={str(v).lower() if isinstance(v, bool) else v}')
+    path = None
+    try:
+        with tempfile.NamedTemporaryFile('w', suffix='.smt2', delete=False) as f:
+            f.write(text)
+            path = f.name
+        p = subprocess.run([Z3_CLI, f'-t:{int(timeout_ms)}', f'-T:{int(timeout_ms / 1000) + 5}'] + opts + [path], capture_output=True, text=True,
+                           timeout=timeout_ms / 1000 + 15)
+        first_line = p.stdout.strip().split('\n')[0] if p.stdout.strip() else 'unknown'
+    except Exception:
+        first_line = 'unknown'
+    finally:
+        if path:
+            try:
+                os.unlink(path)
+            except OSError:
+                pass
+    if first_line == 'unsat':
+        return name, 'unsat', None, int((time.time() - t0) * 1000), label
+    if first_line != 'sat' or label != 'z3':
+        return name, 'unknown', None, int((time.time() - t0) * 1000), label
+    # satisfiable (default configuration only): the counter-model is extracted through the API
+    import z3
     try:
         s = z3.Solver()
         s.set('timeout', int(timeout_ms))
-        for k, v in CONFIGS[label].items():
-            s.set(k, v)
         s.from_string(smt2)
         r = s.check()
         if r == z3.unsat:
-            return name, 'unsat', None, int((time.time() - t0) * 1000), label
+            return name, 'unknown', None, int((time.time() - t0) * 1000), label      # the two runs disagree: no verdict
         if r == z3.sat and label == 'z3':
             model = None
             if want_model:
@@ -117,7 +146,16 @@ def discharge(obls, timeout_ms=10000, workers=None, use_cvc5=True, cvc5_timeout_
     workers = workers or min(16, os.cpu_count() or 4)
     texts = {o.name: o.smt2() for o in obls}
     res = {}
-    first = max(1000, min(timeout_ms, 4000)) if portfolio else timeout_ms
+    # solver budgets are wall-clock: when the machine is busy (other checks, test suites) they are stretched by the load factor so
+    # that a verdict does not flip from proved to unknown merely because the cores are shared
+    try:
+        scale = min(6.0, max(1.0, 1.5 * os.getloadavg()[0] / (os.cpu_count() or 1)))
+    except OSError:
+        scale = 1.0
+    timeout_ms = int(timeout_ms * scale)
+    if cvc5_timeout_ms:
+        cvc5_timeout_ms = int(cvc5_timeout_ms * scale)
+    first = int(max(1000, min(timeout_ms, 4000 * scale))) if portfolio else timeout_ms
     with ProcessPoolExecutor(max_workers=workers) as ex:
         jobs = [(n, t, first, True, 'z3') for n, t in texts.items()]
         for name, r, model, ms, be in ex.map(_z3_worker, jobs, chunksize=1):
